@@ -1,5 +1,6 @@
 import GinjaxVerif.Lemmas.C13
 import GinjaxVerif.Lemmas.C13Scalar
+import GinjaxVerif.Lemmas.C13Images
 import Mathlib.Tactic.Ring
 import Mathlib.Tactic.Linarith
 
@@ -982,6 +983,24 @@ theorem toImages_fromImages_partial (m : MI α) (hm : m.Valid) {S : List Nat} (h
     (hne : m.data ≠ []) : (MI.fromImages m.toImages).toImages = m.toImages := by
   rw [fromImages_toImages m hm ho hne]
 
+theorem firstKeys_eq_firstOcc : ∀ ks : List Key, firstKeys ks = firstOcc ks
+  | [] => rfl
+  | k :: ks => by simp only [firstKeys, firstOcc, firstKeys_eq_firstOcc ks]
+
+/-- **`to_images(from_images(images))` is the image list grouped by type, stable** — the full
+statement: for every non-empty list of images of common `D`, flags and spatial shape, whose types
+`(k, parity)` may repeat and interleave in any way, `from_images` (one `append` per image)
+followed by `to_images` returns the images grouped by type, the types in order of first occurrence,
+the images of one type in their original relative order.  The missing piece of
+`toImages_fromImages_partial` — a loop of `append`s over repeated, interleaved keys — is
+`appendAll_interleaved` (`Lemmas/C13Images.lean`). -/
+theorem toImages_fromImages : toImages_fromImages_statement α := by
+  intro imgs D T S hS hne h
+  rw [toImages_fromImages_grouped imgs D T S hS hne h]
+  unfold groupByType
+  rw [firstKeys_eq_firstOcc]
+  rfl
+
 /-! ## the repaired `append` (fix D11) versus the legacy assertion -/
 
 /-- Before fix D11 `append` refused to *store* a block of a new type in a non-empty multi image
@@ -1093,6 +1112,25 @@ example : MI.fromImages exOne.toImages = exOne :=
       · rw [blkW_shape]; decide
       · rw [blkT_shape]; decide⟩
     (by simp [exOne])
+
+/-- three images whose types interleave: scalar, vector, scalar (`D = 2`, spatial shape `(2, 3)`) -/
+def imgA : GImg Nat := ⟨⟨[2, 3], #[0, 1, 2, 3, 4, 5]⟩, 0, 2, [true, true]⟩
+def imgB : GImg Nat := ⟨⟨[2, 3, 2], #[10, 11, 12, 13, 14, 15, 16, 17, 18, 19, 20, 21]⟩, 0, 2, [true, true]⟩
+def imgC : GImg Nat := ⟨⟨[2, 3], #[30, 31, 32, 33, 34, 35]⟩, 0, 2, [true, true]⟩
+
+/-- the hypotheses of `toImages_fromImages` are satisfiable on an interleaved list, and the images
+come back grouped by type: the two scalars first (in their order), then the vector -/
+example : (MI.fromImages [imgA, imgB, imgC]).toImages = [imgA, imgC, imgB] := by
+  have h := toImages_fromImages (α := Nat) [imgA, imgB, imgC] 2 [true, true] [2, 3] rfl (by simp)
+    (by
+      intro g hg
+      simp only [List.mem_cons, List.not_mem_nil, or_false] at hg
+      rcases hg with rfl | rfl | rfl
+      · exact ⟨rfl, rfl, by decide, by decide, by decide, 0, rfl⟩
+      · exact ⟨rfl, rfl, by decide, by decide, by decide, 1, rfl⟩
+      · exact ⟨rfl, rfl, by decide, by decide, by decide, 0, rfl⟩)
+  rw [h]
+  decide
 
 /-- a second operand for `concat` along the channel axis (axis 1): one shared type, one new type -/
 def exB : MI Nat := ⟨2, [true, false], [((1, 0), blkV1), ((0, 0), blkS)]⟩
